@@ -35,6 +35,7 @@ FORBIDDEN = [
     (r"\bRandomState\b", "std's randomly seeded hasher state"),
     (r"std::collections::(hash_map::)?Hash(Map|Set)\b(?!.*DeterministicState)", "std hashed collection without the deterministic hasher"),
     (r"\bhash_map::(HashMap|RandomState)\b", "std hash_map items"),
+    (r"\bHash(Map|Set)\s*::\s*(<[^>]*>\s*::\s*)?(new|with_capacity)\s*\(", "HashMap/HashSet::new()/with_capacity() exist only for std's RandomState: the hasher parameter is inferred as the random one"),
     (r"\bhashbrown\b|\bahash\b|\bfxhash\b|\bindexmap\b", "third-party hashed collection"),
     (r"\bthread_local!|\bstatic\s+mut\b|\bOnceLock\b|\bOnceCell\b|\blazy_static\b|\bLazyLock\b|\bAtomic(Usize|U64|U32|Bool|Isize)\b", "process-global mutable state"),
     (r"\bstd::env\b|\benv::var\b|\benv!\(|\boption_env!\(", "environment access"),
@@ -83,8 +84,8 @@ def family(tier, seed):
     items = [
         extract_stmt(src, r"^pub struct DeterministicState;"),
         extract_item(src, r"^impl std::hash::BuildHasher for DeterministicState \{"),
-        extract_stmt(src, r"^pub type HashMap<K, V> ="),
-        extract_stmt(src, r"^pub type HashSet<K> ="),
+        extract_stmt(src, r"^pub type HashMap<"),
+        extract_stmt(src, r"^pub type HashSet<"),
     ]
     body = "\n\n".join(items)
     sha = hashlib.sha256(body.encode()).hexdigest()
